@@ -127,6 +127,8 @@ def _history_runner():
                     reused = e not in model and any(o['loc'] == locations[e] for o in model.values())      # a freed location may be handed out again
                     if not reused and (g.code == aiocoap.CONTENT) != (e in model):
                         return 'after step %d %r: registration resource of %s answers %s, reference says %s' % (step, op, e, g.code, 'live' if e in model else 'gone')
+                    if e in model and g.payload.decode('utf8') != model[e]['link']:
+                        return 'after step %d %r: registration resource of %s serves %r, the latest successful write was exactly %r (reads must not change what is stored)' % (step, op, e, g.payload, model[e]['link'])
                     if e in model and model[e]['link'].strip('<>') not in g.payload.decode('utf8'):
                         return 'after step %d %r: registration resource of %s has links %r, latest successful write was %s' % (step, op, e, g.payload, model[e]['link'])
             live_links = {r['link'].strip('<>') for r in model.values()}
@@ -187,7 +189,7 @@ def bounded(tier, seed):
                 f.write('#!/venv/bin/python\n"""C20 replay (bounded stand-in, history %r): %s"""\nimport sys, os\nsys.path.insert(0, %r); sys.path.insert(0, os.environ.get("VERIF_REPO", "/repo"))\n'
                         'from specs.c20_history import replay_history\nsys.exit(replay_history(%r))\n' % (seq, bad.replace('"""', "'''"), VERIF, seq))
             viol.append({'what': 'history %r: %s' % (seq, bad), 'replay': path})
-    return [{'name': 'C20/lookups-reflect-live-registrations', 'tool': 'bounded history enumeration on the real StandaloneResourceDirectory (hand-moved clock) against a reference directory',
+    return [lookup_filters(), {'name': 'C20/lookups-reflect-live-registrations', 'tool': 'bounded history enumeration on the real StandaloneResourceDirectory (hand-moved clock) against a reference directory',
              'bound': 'all histories of up to %d operations from %d (2 endpoints, lt 60/200, waits 50/100 s) that start with a registration%s' % (depth, len(OPS), '' if tier != 'thorough' else '; length-5 histories sampled 1 in 11'),
              'inputs_tried': n, 'nontrivial': nt, 'samples': samples, 'violations': viol, 'counted_as_proved': False}]
 
@@ -197,3 +199,85 @@ def replay_history(seq):
     bad = run_seq(tuple(tuple(o) for o in seq))
     print(bad or 'history agrees with the reference directory')
     return 1 if bad else 0
+
+
+def lookup_filters():
+    """RFC 9176 section 6 lookup filtering on the real StandaloneResourceDirectory: every query parameter is a filter and all of them
+    must hold; a filter holds for an endpoint if a registration parameter or a link attribute of one of its links matches (for a
+    link: the link's attribute or a registration parameter of its endpoint); a value ending in '*' is a prefix match.  Bounded."""
+    import asyncio, itertools, os
+    import aiocoap
+    from aiocoap import Message, GET, POST, error
+    from aiocoap.numbers import ContentFormat
+    from aiocoap.message import Direction
+    from aiocoap.cli.rd import StandaloneResourceDirectory
+    VERIF = os.path.dirname(os.path.dirname(os.path.abspath(__file__)))
+
+    class Remote:
+        def __init__(self, n):
+            self.uri = 'coap://[2001:db8::%d]' % n
+            self.scheme, self.hostinfo, self.hostinfo_local = 'coap', '[2001:db8::%d]' % n, 'rd.example'
+            self.is_multicast = self.is_multicast_locally = False
+            self.maximum_block_size_exp, self.maximum_payload_size = 6, 1024
+
+    regs = {'a': ({'et': 'x'}, {'s1': {'rt': 't1'}}), 'b': ({'et': 'y'}, {'s2': {'rt': 't2'}}), 'c': ({'et': 'x'}, {'s3': {'rt': 't2 t3'}, 's4': {'rt': 't1'}})}
+
+    def match(value, pattern, split=False):
+        vals = value.split() if split else [value]
+        return any(v.startswith(pattern[:-1]) if pattern.endswith('*') else v == pattern for v in vals)
+
+    def holds_ep(name, k, pat):
+        params, links = regs[name]
+        p = dict(params, ep=name)
+        return (k in p and match(p[k], pat)) or any(k in attrs and match(attrs[k], pat, k in ('rt', 'if')) for attrs in links.values())
+
+    def holds_link(name, link, k, pat):
+        params, links = regs[name]
+        p = dict(params, ep=name)
+        attrs = links[link]
+        return (k in attrs and match(attrs[k], pat, k in ('rt', 'if'))) or (k in p and match(p[k], pat))
+
+    async def run(filters):
+        site = StandaloneResourceDirectory(context=None)
+        for i, (name, (params, links)) in enumerate(regs.items()):
+            payload = ','.join('</%s>;rt="%s"' % (l, a['rt']) for l, a in links.items()).encode()
+            m = Message(code=POST, payload=payload)
+            m.opt.uri_path, m.opt.uri_query, m.opt.content_format = site.rd_path, tuple(['ep=' + name] + ['%s=%s' % kv for kv in params.items()]), ContentFormat.LINKFORMAT
+            m.remote, m.direction = Remote(i + 1), Direction.INCOMING
+            await site.render(m)
+        out = []
+        for path in (site.ep_lookup_path, site.res_lookup_path):
+            m = Message(code=GET)
+            m.opt.uri_path, m.opt.uri_query = path, tuple('%s=%s' % f for f in filters)
+            m.remote, m.direction = Remote(9), Direction.INCOMING
+            try:
+                out.append((await site.render(m)).payload.decode())
+            except error.RenderableError as e:
+                out.append('ERR ' + str(e.to_message().code))
+        for t in asyncio.all_tasks():
+            if t is not asyncio.current_task():
+                t.cancel()
+        return out
+    singles = [('ep', 'a'), ('ep', 'c'), ('et', 'x'), ('et', 'y'), ('rt', 't1'), ('rt', 't2'), ('rt', 't*'), ('et', 'z')]
+    queries = [(f,) for f in singles] + [q for q in itertools.permutations(singles, 2) if q[0][0] != q[1][0] or q[0][0] == 'rt']
+    viol, n, samples = [], 0, []
+    for q in queries:
+        n += 1
+        epl, rsl = asyncio.run(run(q))
+        got_ep = sorted(name for name in regs if 'ep="%s"' % name in epl)
+        want_ep = sorted(name for name in regs if all(holds_ep(name, k, pat) for k, pat in q))
+        got_l = sorted(l for name in regs for l in regs[name][1] if '/%s>' % l in rsl)
+        want_l = sorted(l for name in regs for l in regs[name][1] if all(holds_link(name, l, k, pat) for k, pat in q))
+        if len(samples) < 3 and len(q) == 2 and n % 9 == 0:
+            samples.append({'query': '&'.join('%s=%s' % f for f in q), 'endpoints': got_ep, 'links': got_l})
+        if (got_ep != want_ep or got_l != want_l) and len(viol) < 8:
+            qs = '&'.join('%s=%s' % f for f in q)
+            path = os.path.join(VERIF, 'replays', 'C20-filter-%d.py' % (len(viol) + 1))
+            os.makedirs(os.path.dirname(path), exist_ok=True)
+            with open(path, 'w') as f:
+                f.write('#!/venv/bin/python\n"""C20 replay (bounded stand-in, lookup filters): ?%s"""\nimport sys, os\nsys.path.insert(0, %r); sys.path.insert(0, os.environ.get("VERIF_REPO", "/repo"))\n'
+                        'from specs.c20_history import lookup_filters\nb = lookup_filters()\nbad = [v for v in b["violations"] if "?%s " in v["what"]]\n'
+                        'print(bad[0]["what"] if bad else "lookup ?%s lists the matching registrations")\nsys.exit(1 if bad else 0)\n' % (qs, VERIF, qs, qs))
+            viol.append({'what': 'lookup ?%s lists endpoints %s (filters give %s) and links %s (filters give %s)' % (qs, got_ep, want_ep, got_l, want_l), 'replay': path})
+    return {'name': 'C20/lookup-filters', 'tool': 'bounded enumeration on the real StandaloneResourceDirectory', 'bound': '%d queries of one or two filters over 3 registrations with 4 links' % n,
+            'inputs_tried': n, 'samples': samples, 'violations': viol, 'counted_as_proved': False}
